@@ -1079,10 +1079,10 @@ static void register_properties()
   reg_clamp<int16_t>("clamp_i16", genI<int16_t>(), 2000);
   reg_clamp<uint8_t>("clamp_u8", genI<uint8_t>(), 2000);
 #elif C07_PART == 4
-  reg_div<int32_t>("divRoundUp_i32", 6000);
-  reg_div<uint32_t>("divRoundUp_u32", 6000);
-  reg_div<int64_t>("divRoundUp_i64", 6000);
-  reg_div<uint64_t>("divRoundUp_u64", 6000);
+  reg_div<int32_t>("divRoundUp_i32", 5000);
+  reg_div<uint32_t>("divRoundUp_u32", 5000);
+  reg_div<int64_t>("divRoundUp_i64", 5000);
+  reg_div<uint64_t>("divRoundUp_u64", 5000);
   reg_div<int16_t>("divRoundUp_i16", 3000);
   reg_div<uint16_t>("divRoundUp_u16", 3000);
   reg_div<uint8_t>("divRoundUp_u8", 3000);
@@ -1094,18 +1094,18 @@ static void register_properties()
       return c;
     });
   };
-  pbt::property<F3>("madd", 12000, f3(true), madd_case);
+  pbt::property<F3>("madd", 8000, f3(true), madd_case);
   // lerp factor: boundary-heavy around [0,1]
   auto genFactor = rc::gen::weightedOneOf<float>(
       {{3, rc::gen::element(0.f, 1.f, 0.5f, -0.f, 0x1p-149f, 0x1p-24f, 0x1.fffffep-1f, 0x1.000002p0f, 0.25f, 2.f, -1.f)},
           {3, rc::gen::map(pbt::range<int>(0, 1 << 24), [](int i) { return (float)i * 0x1p-24f; })}, {2, genF(false)}});
-  pbt::property<F3>("lerp_float", 12000, rc::gen::map(rc::gen::tuple(genFactor, genF(true), genF(true)), [](const std::tuple<float, float, float> &t) {
+  pbt::property<F3>("lerp_float", 8000, rc::gen::map(rc::gen::tuple(genFactor, genF(true), genF(true)), [](const std::tuple<float, float, float> &t) {
     F3 c;
     c.a = std::get<0>(t), c.b = std::get<1>(t), c.c = std::get<2>(t);
     return c;
   }),
       lerp_float_case);
-  pbt::property<LerpD>("lerp_double", 8000, rc::gen::map(rc::gen::tuple(genFactor, genD(false), genD(false)), [](const std::tuple<float, double, double> &t) {
+  pbt::property<LerpD>("lerp_double", 5000, rc::gen::map(rc::gen::tuple(genFactor, genD(false), genD(false)), [](const std::tuple<float, double, double> &t) {
     LerpD c;
     c.f = std::get<0>(t), c.a = std::get<1>(t), c.b = std::get<2>(t);
     return c;
@@ -1114,7 +1114,7 @@ static void register_properties()
   auto arr3 = rc::gen::map(rc::gen::tuple(genF(false), genF(false), genF(false)), [](const std::tuple<float, float, float> &t) {
     return std::array<float, 3>{{std::get<0>(t), std::get<1>(t), std::get<2>(t)}};
   });
-  pbt::property<LerpV>("lerp_vec3f", 6000, rc::gen::map(rc::gen::tuple(genFactor, arr3, arr3), [](const std::tuple<float, std::array<float, 3>, std::array<float, 3>> &t) {
+  pbt::property<LerpV>("lerp_vec3f", 4000, rc::gen::map(rc::gen::tuple(genFactor, arr3, arr3), [](const std::tuple<float, std::array<float, 3>, std::array<float, 3>> &t) {
     LerpV c;
     c.f = std::get<0>(t), c.a = std::get<1>(t), c.b = std::get<2>(t);
     return c;
@@ -1128,17 +1128,17 @@ static void register_properties()
          // around the rounding thresholds (k+0.5)/255 of the linear packing
          return f_of(b_of(((float)std::get<0>(t) + 0.5f) / 255.f) + (uint32_t)std::get<1>(t));
        })}});
-  pbt::property<V4>("pack_per_channel", 12000, rc::gen::map(rc::gen::tuple(genChan, genChan, genChan, genChan), [](const std::tuple<float, float, float, float> &t) {
+  pbt::property<V4>("pack_per_channel", 8000, rc::gen::map(rc::gen::tuple(genChan, genChan, genChan, genChan), [](const std::tuple<float, float, float, float> &t) {
     V4 c;
     c.v = {{std::get<0>(t), std::get<1>(t), std::get<2>(t), std::get<3>(t)}};
     return c;
   }),
       pack_case);
-  pbt::property<double>("double_overloads", 8000, genD(true), double_case);
+  pbt::property<double>("double_overloads", 5000, genD(true), double_case);
 #else
   pbt::property<BiasedCase>("pcg32_biased_float_distribution", 8000, genBiased(), biased_case);
-  pbt::property<UrdCase<float>>("uniform_real_distribution_float", 10000, genUrd<float>(genF(false)), urd_case<float, false>);
-  pbt::property<UrdCase<double>>("uniform_real_distribution_double", 10000, genUrd<double>(genD(false)), urd_case<double, false>);
+  pbt::property<UrdCase<float>>("uniform_real_distribution_float", 8000, genUrd<float>(genF(false)), urd_case<float, false>);
+  pbt::property<UrdCase<double>>("uniform_real_distribution_double", 8000, genUrd<double>(genD(false)), urd_case<double, false>);
   // expected to FAIL on the unchanged tree (genuine defect, notes/C07.md "Defects"): kept, not weakened
   pbt::property<UrdCase<float>>("uniform_real_distribution_float_tiny_range", 3000, genUrdTiny<float>(), urd_case<float, true>);
   pbt::property<UrdCase<double>>("uniform_real_distribution_double_tiny_range", 3000, genUrdTiny<double>(), urd_case<double, true>);
